@@ -43,10 +43,12 @@ def collect(ctx, n_hosts):
         import copy
         q = copy.deepcopy(h)
         gs = [g["concrete"] for g in h["generics"]]
-        q["entry_points_args"] = ("generics<" + ", ".join(gs[:-1]) + ">") if len(gs) > 1 else ""
+        # a lifetime parameter of the contract takes part in the count (sylvia compares with all parameters of the impl)
+        lt = ["'static"] if h.get("lifetime") else []
+        q["entry_points_args"] = ("generics<" + ", ".join(lt + gs[:-1]) + ">") if len(lt + gs) > 1 else ""
         muts.append((f"hg{i:03d}_ep_too_few_generics", "entry-points-too-few-generics", "ep", q, ["Missing concrete types"]))
         q = copy.deepcopy(h)
-        q["entry_points_args"] = "generics<" + ", ".join(gs + ["u8"]) + ">"
+        q["entry_points_args"] = "generics<" + ", ".join(lt + gs + ["u8"]) + ">"
         muts.append((f"hg{i:03d}_ep_too_many_generics", "entry-points-too-many-generics", "ep", q, ["Missing concrete types"]))
     return hosts, muts
 
